@@ -49,7 +49,7 @@ func runC04(c *wk.Ctx) {
 	}
 	if c.Mine(0) {
 		c.Begin(0, "cross-namespace default loops")
-		c04CrossNamespace(c)
+		c04CrossNamespace(c, "C04")
 	}
 	if c.Mine(1) {
 		c.Begin(1, "deep valid values of recursive struct-mapped schemas")
@@ -208,7 +208,7 @@ func runC04(c *wk.Ctx) {
 // c04CrossNamespace: defaults that lead back to their own property through references into ANOTHER namespace, linked
 // by a later ApplyNamespace call (two sibling scopes referring to each other; a scope that refers to itself under a
 // second name). Linking must refuse them - or every operation on what was accepted must still terminate.
-func c04CrossNamespace(c *wk.Ctx) {
+func c04CrossNamespace(c *wk.Ctx, propID string) {
 	def := "{}"
 	prop := func(t schema.Type, d *string) *schema.PropertySchema {
 		return schema.NewPropertySchema(t, nil, false, nil, nil, nil, d, nil)
@@ -251,7 +251,7 @@ func c04CrossNamespace(c *wk.Ctx) {
 					c.Note(fmt.Sprintf("%s on accepted cross-namespace scopes (%s) dyn=%s", op.name, name, dynType(in)))
 					var err error
 					if p, site, msg, _ := wk.Guard(func() { err = op.call(t, in) }); p {
-						c.Violation("C04:panic:"+op.name+":"+site, op.name+" panicked on scopes linked across namespaces ("+name+"): "+msg, map[string]any{"scopes": name})
+						c.Violation(propID+":panic:"+op.name+":"+site, op.name+" panicked on scopes linked across namespaces ("+name+"): "+msg, map[string]any{"scopes": name})
 					}
 					_ = err
 					c.Count("calls")
